@@ -96,6 +96,20 @@ def peak(x):
     return float(np.max(np.abs(x))) if x.size else 0.0
 
 
+def nat(amax, dt, T):
+    """natural magnitudes (u, v, a) of the response of an oscillator of period T to a record of amplitude amax sampled at dt: the size of
+    the terms that are added in one step of the recurrence. Series peaks are floored at 1e-3 of these before a relative comparison: the
+    exact series can vanish at every sample instant (undamped T == dt/k with hat/step records: velocity ~1e-20 = pure rounding noise),
+    where 'relative to the series peak' would compare noise with noise (c01.py skips the same degenerate cases)."""
+    if T == 0:
+        return (0.0, 0.0, amax)
+    w = C_NJ / T
+    return (amax * min(dt * dt, 1 / (w * w)), amax * min(dt, 1 / w), amax)
+
+
+FLOOR = 1e-3
+
+
 def scaled_exactly(x, y, k):
     """x == k*y bit for bit wherever k*y is a normal number (scaling by 2^k commutes with every rounding except gradual underflow:
     heavily damped stiff oscillators decay below 1e-300 within a record)"""
@@ -106,7 +120,7 @@ def scaled_exactly(x, y, k):
     return bool(np.array_equal(x[normal], ky[normal]) and np.all(np.abs(x[~normal] - ky[~normal]) <= 1e-290))
 
 
-def refine_check(coarse, ref, fac, n, periods, xi, dt2, duration):
+def refine_check(coarse, ref, fac, n, periods, xi, dt2, duration, amax, dt):
     """response of the refined record read at the original instants vs the coarse response, per series and row, under the C01 tolerance
     at the refined step, relative to the series peak (the peak of the refined series: it samples the same solution more densely, and the
     coarse samples alone can all sit near zero crossings, e.g. T == dt); -> (ok, worst err/tol, (series, row, err, tol))"""
@@ -115,7 +129,7 @@ def refine_check(coarse, ref, fac, n, periods, xi, dt2, duration):
         ys = y[:, ::fac][:, :n]
         for j, T in enumerate(periods):
             tol = prop_tol(dt2, T, duration)
-            pk = max(peak(x[j]), peak(y[j]), 1e-300)
+            pk = max(peak(x[j]), peak(y[j]), FLOOR * nat(amax, dt, T)['uva'.index(name)], 1e-300)
             if name == 'a' and T != 0:   # third series: w^2 u and 2 xi w v may cancel in it; errors are measured against the terms' peaks
                 w = C_NJ / T
                 pk = max(pk, w * w * max(peak(coarse[0][j]), peak(ref[0][j])), 2 * xi * w * max(peak(coarse[1][j]), peak(ref[1][j])))
@@ -270,9 +284,9 @@ def exhaustive(ctx, im):
                     rc, rb = table[(c, '012')], table[(partner, '012')]
                     ok = True
                     worst = 0.0
-                    for x, y, z in zip(rc, full, rb):
-                        for j in range(3):
-                            sc = max(peak(y[j]), peak(z[j]), 1e-300)
+                    for si, (x, y, z) in enumerate(zip(rc, full, rb)):
+                        for j, T in enumerate(plists['012']):
+                            sc = max(peak(y[j]), peak(z[j]), FLOOR * nat(2.0, dt, T)[si], 1e-300)
                             e = peak(x[j] - (y[j] + sgn * z[j])) / sc
                             worst = max(worst, e)
                             ok = ok and e <= 1e-10
@@ -309,9 +323,10 @@ def linearity(ctx, im, ncases, nmax):
         if ra is None or rb is None or rc is None:
             continue
         ok, worst, where = True, 0.0, None
+        amax = max(abs(alpha) * peak(a), abs(beta) * peak(b))
         for name, x, y, z in zip('uva', rc, ra, rb):
             for j in range(len(periods)):
-                sc = max(abs(alpha) * peak(y[j]), abs(beta) * peak(z[j]), 1e-300)
+                sc = max(abs(alpha) * peak(y[j]), abs(beta) * peak(z[j]), FLOOR * nat(amax, dt, periods[j])['uva'.index(name)], 1e-300)
                 e = peak(x[j] - (alpha * y[j] + beta * z[j])) / sc
                 if e > worst:
                     worst, where = e, (name, j)
@@ -328,6 +343,11 @@ def linearity(ctx, im, ncases, nmax):
         # spectra scale by |alpha| and ignore the sign
         al = alpha if alpha != 0 else 3.0
         parr = np.array(periods)
+        nats = [nat(peak(a), dt, T) for T in periods]
+        wj = np.array([1.0 if T == 0 else 2 * math.pi / T for T in periods])
+        # floors for (S_d, S_v, S_a) of either spectrum function: peaks of u, v (or w*u), a (or w^2*u, or the PGA)
+        fl = [FLOOR * np.array([q[0] for q in nats]), FLOOR * np.array([max(q[1], w * q[0]) for q, w in zip(nats, wj)]),
+              FLOOR * np.array([max(q[2], w * w * q[0]) for q, w in zip(nats, wj)])]
         for label, f in (('pseudo_response_spectra', sdof.pseudo_response_spectra), ('true_response_spectra', sdof.true_response_spectra)):
             s1 = call_impl(f, a, dt, parr, xi)
             s2 = call_impl(f, al * a, dt, parr, xi)
@@ -336,7 +356,7 @@ def linearity(ctx, im, ncases, nmax):
             if not (s1[0] == s2[0] == s3[0] == s4[0] == 'ok'):
                 ctx.oracle(f'{label} returns on its domain', False, inp, detail=[s1[0], s2[0], s3[0], s4[0]])
                 continue
-            ok = all(np.all(np.abs(y - abs(al) * x) <= 1e-10 * abs(al) * np.abs(x)) for x, y in zip(s1[1], s2[1]))
+            ok = all(np.all(np.abs(y - abs(al) * x) <= 1e-10 * abs(al) * np.maximum(np.abs(x), f)) for x, y, f in zip(s1[1], s2[1], fl))
             ctx.oracle(f'C02.a {label} scale by |alpha| (1e-10 relative)', ok, {**inp, 'alpha': al}, detail={'base': s1[1], 'scaled': s2[1]})
             ok = all(np.array_equal(y, abs(k2) * x) for x, y in zip(s1[1], s3[1])) and all(np.array_equal(x, y) for x, y in zip(s1[1], s4[1]))
             ctx.oracle(f'C02.a {label} ignore the sign and scale exactly by 2^k (==)', ok, {**inp, 'alpha': k2})
@@ -349,9 +369,9 @@ def linearity(ctx, im, ncases, nmax):
                 ok = eq3(o1[1], ra)
                 ctx.oracle('AccSignal.response_series == sdof.response_series (==)', ok, inp)
                 ok = True
-                for x, y in zip(o2[1], o1[1]):
+                for si, (x, y) in enumerate(zip(o2[1], o1[1])):
                     for j in range(len(periods)):
-                        ok = ok and peak(x[j] - al * y[j]) <= 1e-10 * max(abs(al) * peak(y[j]), 1e-300)
+                        ok = ok and peak(x[j] - al * y[j]) <= 1e-10 * abs(al) * max(peak(y[j]), FLOOR * nats[j][si], 1e-300)
                 ctx.oracle('C02.a AccSignal.response_series is homogeneous: response(alpha a) == alpha response(a) (1e-10 of the peak)', ok,
                            {**inp, 'alpha': al})
             else:
@@ -365,7 +385,7 @@ def linearity(ctx, im, ncases, nmax):
             if any(s is None for s in sp):
                 ctx.oracle('AccSignal.gen_response_spectrum returns on its domain', False, inp)
             else:
-                ok = all(np.all(np.abs(y - abs(al) * x) <= 1e-10 * abs(al) * np.abs(x)) for x, y in zip(sp[0], sp[1]))
+                ok = all(np.all(np.abs(y - abs(al) * x) <= 1e-10 * abs(al) * np.maximum(np.abs(x), f)) for x, y, f in zip(sp[0], sp[1], fl))
                 ctx.oracle('C02.a AccSignal.s_d/s_v/s_a scale by |alpha| (1e-10 relative)', ok, {**inp, 'alpha': al, 'min_dt_ratio': mdr},
                            detail={'base': sp[0], 'scaled': sp[1]})
                 ok = all(np.array_equal(y, 2.0 * x) for x, y in zip(sp[0], sp[2]))
@@ -555,7 +575,7 @@ def refinement(ctx, im, ncases, nmax):
         ref = im.resp(fine, dt2, periods, xi)
         if coarse is None or ref is None:
             continue
-        ok, worst, where = refine_check(coarse, ref, fac, n, periods, xi, dt2, n * dt)
+        ok, worst, where = refine_check(coarse, ref, fac, n, periods, xi, dt2, n * dt, peak(a), dt)
         ctx.gap('refinement(relative to property tolerance)', worst)
         ctx.oracle('C02.e refinement by an integer factor leaves the response at the original instants unchanged (C01 tolerance at the refined step)',
                    ok, inp, detail={'worst (series,row,err,tol)': where, 'refined_dt': dt2, 'factor': fac})
@@ -619,7 +639,7 @@ def corpus(ctx, im):
         for r in (2, 8):
             fine = np.interp(np.arange(r * (n - 1) + 1) / r, np.arange(n), a)
             ref = im.resp(fine, dt / r, periods, xi)
-            ok = ref is not None and refine_check(base, ref, r, n, periods, xi, dt / r, n * dt)[0]
+            ok = ref is not None and refine_check(base, ref, r, n, periods, xi, dt / r, n * dt, peak(a), dt)[0]
             ctx.oracle('C02.e refinement by an integer factor leaves the response at the original instants unchanged (C01 tolerance at the refined step)',
                        ok, {**inp, 'r': r, 'route': 'np.interp'})
 
